@@ -118,6 +118,7 @@ def register(reg):
     )
     _register_parse_accept(reg)
     _register_accept_init(reg)
+    _register_base_matcher(reg)
 
 
 def _replay_parse_accept(reg, c, inputs):
@@ -191,5 +192,20 @@ def _register_accept_init(reg):
         "werkzeug/datastructures/accept.py:Accept.__init__", prop="C17", self_model=Acc,
         params={"values": "List[Tuple[str, float]]"},
         ensures=["sorted_items(self.__list__)", "len(self.__list__) == len(values)", "self.provided"],
+        raises={},
+    )
+
+
+def _register_base_matcher(reg):
+    """Accept._value_matches (the matcher of the plain Accept class: codings, and the temporary Accept of LanguageAccept's
+    primary-tag fallback) -- the body; the selection contracts above use the abstract matcher: `*` matches everything,
+    otherwise matching is equality up to letter case, on BOTH sides"""
+    AM = reg.model("AcceptBase", cls="werkzeug/datastructures/accept.py:Accept", fields={})
+    reg.contract(
+        "werkzeug/datastructures/accept.py:Accept._value_matches#verify", prop="C17", self_model=AM,
+        params={"value": "str", "item": "str"}, returns="bool", modifies=[],
+        ensures=["implies(item == '*', result)",
+                 "implies(item.lower() == value.lower(), result)",
+                 "implies(result and item != '*', item.lower() == value.lower())"],
         raises={},
     )
